@@ -374,10 +374,18 @@ func wideCoords(d, wide, n, lead, badIdx int, bad *jv) *jv {
 // level of every type, well-formed and with ONE malformed position at an early, middle or the last
 // member (a decoder that treats large inputs differently - batching, goroutines, a fast path - must
 // still turn the malformed element into an error on the caller's goroutine)
+// emitShort: documents longer than the 64 KiB of the property's quantifier are not emitted (a
+// truncated one would only be a syntax error)
+func emitShort(out *bufio.Writer, text string) {
+	if len(text) <= maxInput {
+		emitJSON(out, text)
+	}
+}
+
 func genWide(out *bufio.Writer, r *vproto.Rng, thorough bool) {
 	bads := []*jv{jarr(jnum(1), jnum(0), jnum(7)), jarr(jnum(1)), jarr(), jnull(), jstr("x"), jnum(3), jarr(jarr(jnum(1), jnum(2))),
 		jobj("x", jnum(1)), jarr(jnum(1), jstr("2")), jarr(jnum(1), jnull()), jarr(jnum(1), jnum(2), jnum(3), jnum(4))}
-	sizes := []int{31, 32, 33, 63, 64, 65, 127, 128, 129, 255, 256, 257, 1025}
+	sizes := []int{31, 32, 33, 63, 64, 65, 127, 128, 129, 255, 256, 257, 1025, 2049, 4100}
 	for _, typ := range geoTypes {
 		d := geoDepth[typ]
 		for wide := 0; wide < d-1; wide++ {
@@ -388,7 +396,7 @@ func genWide(out *bufio.Writer, r *vproto.Rng, thorough bool) {
 				}
 				for _, lead := range leads {
 					c := wideCoords(d, wide, n, lead, -1, nil)
-					emitJSON(out, doc(jstr(typ), c, r))
+					emitShort(out, doc(jstr(typ), c, r))
 					emitGJ(out, typ, c)
 					for _, idx := range []int{1, n / 2, n - 1} {
 						for bi, bad := range bads {
@@ -397,12 +405,52 @@ func genWide(out *bufio.Writer, r *vproto.Rng, thorough bool) {
 								continue
 							}
 							m := wideCoords(d, wide, n, lead, idx, bad)
-							emitJSON(out, doc(jstr(typ), m, r))
+							emitShort(out, doc(jstr(typ), m, r))
 							if bi%2 == 0 || thorough {
 								emitGJ(out, typ, m)
 							}
 						}
 					}
+				}
+			}
+		}
+		// compact: every member minimal (one ring, one position, small integers), so that thousands of
+		// members fit into the 64 KiB of the quantifier as JSON TEXT
+		for _, n := range []int{33, 130, 1025, 2049, 3000, 4100} {
+			for wide := 0; wide < d-1; wide++ {
+				mk := func(badIdx int, bad *jv) *jv {
+					var build func(level int, on bool, isBad bool) *jv
+					build = func(level int, on bool, isBad bool) *jv {
+						if level == d-1 {
+							if isBad {
+								return bad.clone()
+							}
+							return jarr(jraw("1"), jraw("0"))
+						}
+						a := jarr()
+						if on && level == wide {
+							for i := 0; i < n; i++ {
+								a.arr = append(a.arr, build(level+1, false, i == badIdx))
+							}
+						} else {
+							a.arr = append(a.arr, build(level+1, on, isBad))
+						}
+						return a
+					}
+					return build(0, true, false)
+				}
+				var sb strings.Builder
+				render := func(c *jv) string {
+					sb.Reset()
+					sb.WriteString(`{"type":"` + typ + `","coordinates":`)
+					c.render(&sb, vproto.NewRng(0x7fffffff)) // no optional white space: this rng never draws it
+					sb.WriteString("}")
+					return strings.ReplaceAll(strings.ReplaceAll(sb.String(), " ", ""), "\n", "")
+				}
+				emitShort(out, render(mk(-1, nil)))
+				for _, idx := range []int{n / 2, n - 1} {
+					emitShort(out, render(mk(idx, bads[0])))
+					emitShort(out, render(mk(idx, bads[2])))
 				}
 			}
 		}
@@ -412,7 +460,7 @@ func genWide(out *bufio.Writer, r *vproto.Rng, thorough bool) {
 			for i := 0; i < n; i++ {
 				p.arr = append(p.arr, jnum(float64(i)))
 			}
-			emitJSON(out, doc(jstr(typ), wideCoords(d, 0, 2, 0, 1, p), r))
+			emitShort(out, doc(jstr(typ), wideCoords(d, 0, 2, 0, 1, p), r))
 			emitGJ(out, typ, wideCoords(d, 0, 40, 0, 39, p))
 		}
 	}
